@@ -127,11 +127,17 @@ fn eval_any_expr(start_node: &tree_sitter::Node, source: &str, pc: Option<usize>
         },
         "pchar" => {
             let txt = node.utf8_text(source.as_bytes())?;
-            Ok(txt.as_bytes()[1] as i64)
+            match txt.as_bytes().get(1) {
+                Some(c) => Ok(*c as i64),
+                None => Err(Box::new(Error::ExpressionEvaluation))
+            }
         },
         "nchar" => {
             let txt = node.utf8_text(source.as_bytes())?;
-            Ok(txt.as_bytes()[1] as i64 + 0x80)
+            match txt.as_bytes().get(1) {
+                Some(c) => Ok(*c as i64 + 0x80),
+                None => Err(Box::new(Error::ExpressionEvaluation))
+            }
         },
         "current_addr" => {
             match pc {
